@@ -14,6 +14,7 @@ import (
 	"rscheck/cfgq"
 	"rscheck/core"
 	"rscheck/driver"
+	"rscheck/flow"
 	"rscheck/grammar"
 	"rscheck/pat"
 	"rscheck/rules/arith"
@@ -161,43 +162,14 @@ func r1r2r3(c *core.Ctx, rre, big, ql *core.Fn) {
 		c.Check("R1.route", s.key+"/not-for-quicklist", s.p.Node().Pos(), ok, "a quicklist payload never reaches the "+s.key+" route (the quicklist arm returns first)", w...)
 	}
 	// lua
-	ok, w = g.OnlyViaFact(script[0], fact("_e.Type == rdb.RdbFlagAUX", ""))
-	ok2, w2 := g.OnlyViaFact(script[0], fact(`string(_e.Key) == "lua"`, ""))
-	c.Check("R1.route", "script/only-lua-aux", script[0].Node().Pos(), ok && ok2, "script load is reached only for the AUX record named lua", append(w, w2...)...)
+	eObj := info.Defs[eParam.(*ast.Ident)]
+	luaRoute(c, g, eObj, script[0], []cfgq.Point{restore[0], bigCalls[0], qlCalls[0]})
 	okF, wF := g.OnlyViaFact(script[0], func(f cfgq.Fact) bool {
 		return pat.Expr("conf.Options.FilterLua == false").Match(info, f.Expr, nil) != nil && f.Val ||
 			pat.Expr("!conf.Options.FilterLua").Match(info, f.Expr, nil) != nil && f.Val ||
 			pat.Expr("conf.Options.FilterLua").Match(info, f.Expr, nil) != nil && !f.Val
 	})
 	c.Check("R1.route", "script/iff-not-filtered", script[0].Node().Pos(), okF, "Lua scripts are loaded only when filter.lua is off", wF...)
-	for _, s := range []struct {
-		key string
-		p   cfgq.Point
-	}{{"restore", restore[0]}, {"element", bigCalls[0]}} {
-		okL, wL := g.OnlyViaFact(s.p, func(f cfgq.Fact) bool {
-			// the lua test as a whole must have been false: either conjunct false is
-			// not derivable from the false edge of &&, so accept the edge of the whole condition
-			return false
-		})
-		_ = okL
-		_ = wL
-		// the lua arm returns on every path: no path from script-arm entry to the sink
-		_ = s
-	}
-	// the lua arm never falls into a key route
-	if ifs := findIf(info, body, func(cond ast.Expr) bool {
-		return len(pat.Expr(`string(_e.Key) == "lua"`).FindAll(info, cond, eb)) > 0
-	}); ifs != nil {
-		bp, okb := g.Find(ifs.Body.List[0])
-		if okb {
-			wr := g.Path(cfgq.Query{From: bp, Target: func(n ast.Node) bool {
-				return n == restore[0].Node() || n == bigCalls[0].Node() || n == qlCalls[0].Node()
-			}})
-			c.Check("R1.route", "script/returns-before-key-routes", ifs.Pos(), wr == nil, "the script record never continues into a key route (a key named by the aux field would be written)", wr...)
-		}
-	} else {
-		c.Undecidedf("R1.route", "script/arm", rre.Decl.Pos(), "lua arm not found")
-	}
 	// element route guard
 	okB, wB := g.OnlyViaFact(bigCalls[0], fact("_e.Type != rdb.RDBTypeStreamListPacks", "_e.Type == rdb.RDBTypeStreamListPacks"))
 	c.Check("R1.route", "element/not-for-streams", bigCalls[0].Node().Pos(), okB, "streams are never expanded element by element (no expansion exists for them)", wB...)
@@ -222,25 +194,9 @@ func r1r2r3(c *core.Ctx, rre, big, ql *core.Fn) {
 		c.Check("R1.route", "element/returns-before-restore", thr.Pos(), wr == nil, "a big key / chunk never continues into RESTORE", wr...)
 	}
 	// RESTORE params
-	pn, pb := pat.Stmt("_params = []interface{}{_e.Key, _ttl, _e.Value}").Find(info, body, eb)
-	c.Check("R1.route", "restore/params", restore[0].Node().Pos(), pn != nil, "RESTORE is sent with (key, ttlms, payload) in this order")
-	var ttlVar ast.Node
-	if pn != nil {
-		ttlVar = pb["_ttl"]
-		rc := doCmd(info, restore[0].Node(), "restore")
-		okArgs := len(rc.Args) == 2 && pat.Same(info, rc.Args[1], pb["_params"]) && rc.Ellipsis.IsValid()
-		c.Check("R1.route", "restore/sends-params", rc.Pos(), okArgs, "the RESTORE call passes exactly that parameter list")
-		for _, opt := range []struct{ name, field string }{{"IDLETIME", "IdleTime"}, {"FREQ", "Freq"}} {
-			ifs := findIf(info, body, func(cond ast.Expr) bool { return pat.Expr("_e."+opt.field+" != 0").Match(info, cond, eb) != nil })
-			okO := false
-			if ifs != nil {
-				a1, _ := pat.Stmt(`_params = append(_params, "`+opt.name+`")`).Find(info, ifs.Body, pb)
-				a2, _ := pat.Stmt("_params = append(_params, _e."+opt.field+")").Find(info, ifs.Body, pb)
-				okO = a1 != nil && a2 != nil && a1.Pos() < a2.Pos()
-			}
-			c.Check("R1.route", "restore/"+strings.ToLower(opt.name), restore[0].Node().Pos(), okO, "the "+opt.name+" hint is appended as keyword then value, only when non-zero")
-		}
-	}
+	fe := flow.New(c.Program)
+	rc := doCmd(info, restore[0].Node(), "restore")
+	ttlCases := restoreParams(c, fe, g, eObj, restore[0], rc)
 
 	// the replies RESTORE's error classification must recognise (Redis 2.8 and >= 3.0 busy-key replies, payload rejection)
 	seen := map[string]bool{}
@@ -283,17 +239,18 @@ func r1r2r3(c *core.Ctx, rre, big, ql *core.Fn) {
 	}
 
 	// ---- R2 TTL
-	if ttlVar == nil {
-		if _, b := pat.Expr(`_c.Do("pexpire", _e.Key, _ttl)`).Find(info, body, eb); b != nil {
-			ttlVar = b["_ttl"]
-		}
+	var ttlVar ast.Node
+	if _, b := pat.Expr(`_c.Do("pexpire", _e.Key, _ttl)`).Find(info, body, eb); b != nil {
+		ttlVar = b["_ttl"]
+	}
+	if ttlCases != nil {
+		ttlByFlow(c, fe, info, eObj, ttlCases, restore[0].Node().Pos())
 	}
 	if ttlVar == nil {
-		c.Undecidedf("R2.ttl", "ttlms", rre.Decl.Pos(), "cannot identify the ttl variable")
+		c.Undecidedf("R2.ttl", "ttlms", rre.Decl.Pos(), "cannot identify the ttl handed to pexpire")
 		return
 	}
 	tb := pat.Binds{"_e": eParam, "_ttl": ttlVar}
-	ttlFormula(c, rre, eParam, ttlVar)
 	isPexpire := func(n ast.Node) bool {
 		call := doCmd(info, n, "pexpire")
 		return call != nil && pat.Expr(`_c.Do("pexpire", _e.Key, _ttl)`).Match(info, call, tb) != nil
@@ -394,114 +351,6 @@ func r1r2r3(c *core.Ctx, rre, big, ql *core.Fn) {
 		}
 	}
 	c.Expect("R3.policy", 9)
-}
-
-// ttlFormula checks how the relative TTL is derived from the absolute expiry.
-// The computation may live in RestoreRdbEntry or in a same-package helper that
-// receives e.ExpireAt; results may be assigned or returned.
-func ttlFormula(c *core.Ctx, rre *core.Fn, eParam ast.Node, ttlVar ast.Node) {
-	info := rre.Pkg.TypesInfo
-	const rule, key = "R2.ttl", "ttlms/formula"
-	usesNow := func(root ast.Node) bool {
-		n, _ := pat.Expr("time.Now()").Find(info, root, nil)
-		return n != nil
-	}
-	var root ast.Node
-	var expire ast.Node // the expression standing for the absolute expiry inside root
-	yields := func(stmt ast.Node, val string, b pat.Binds) bool { // `ttl = val` or `return val`
-		if n, _ := pat.Stmt("_ttl = "+val).Find(info, stmt, b); n != nil {
-			return true
-		}
-		n, _ := pat.Stmt("return "+val).Find(info, stmt, b)
-		return n != nil
-	}
-	if usesNow(rre.Decl.Body) {
-		root = rre.Decl.Body
-		expire = &ast.SelectorExpr{X: eParam.(*ast.Ident), Sel: ast.NewIdent("ExpireAt")}
-		// SelectorExpr built by hand has no type info: match through a pattern instead
-		expire = nil
-	} else {
-		// a helper called with e.ExpireAt
-		core.Inspect(rre.Decl.Body, func(n ast.Node) bool {
-			call, ok := n.(*ast.CallExpr)
-			if !ok || root != nil {
-				return true
-			}
-			f := core.CalleeFunc(info, call)
-			if f == nil || f.Pkg() == nil || f.Pkg().Path() != rre.Pkg.PkgPath {
-				return true
-			}
-			h := c.FnOf(f)
-			if h == nil || h.Decl.Body == nil || !usesNow(h.Decl.Body) {
-				return true
-			}
-			var ps []*ast.Ident
-			for _, fl := range h.Decl.Type.Params.List {
-				ps = append(ps, fl.Names...)
-			}
-			for i, a := range call.Args {
-				if pat.Expr("_e.ExpireAt").Match(info, a, pat.Binds{"_e": eParam}) != nil && i < len(ps) {
-					root, expire = h.Decl.Body, ps[i]
-				}
-			}
-			return true
-		})
-	}
-	if root == nil {
-		c.Undecidedf(rule, key, rre.Decl.Pos(), "cannot find where the relative TTL is computed from time.Now() and the entry's ExpireAt")
-		return
-	}
-	E := "_e.ExpireAt"
-	b := pat.Binds{"_e": eParam, "_ttl": ttlVar}
-	if expire != nil {
-		E = "_exp"
-		b = pat.Binds{"_exp": expire, "_ttl": ttlVar}
-	}
-	okNow := false
-	var nb pat.Binds
-	for _, form := range []string{
-		"_now = uint64(time.Now().Add(conf.Options.ShiftTime).UnixNano())",
-		"_now = uint64(time.Now().Add(conf.Options.ShiftTime).UnixNano()) / uint64(time.Millisecond)",
-		"_now = uint64(time.Now().Add(conf.Options.ShiftTime).UnixNano() / int64(time.Millisecond))",
-	} {
-		if n, bb := pat.Stmt(form).Find(info, root, b); n != nil {
-			nb = bb
-			if strings.Contains(form, "Millisecond") {
-				okNow = true
-			} else if d, _ := pat.Stmt("_now /= uint64(time.Millisecond)").Find(info, root, bb); d != nil {
-				okNow = true
-			} else if d, _ := pat.Stmt("_now = _now / uint64(time.Millisecond)").Find(info, root, bb); d != nil {
-				okNow = true
-			}
-			break
-		}
-	}
-	if nb == nil {
-		c.Check(rule, key, root.Pos(), false, "ttlms must be derived from now = time.Now().Add(ShiftTime) in milliseconds; the (shifted) current time is not computed that way")
-		return
-	}
-	inner := findIf(info, root, func(cond ast.Expr) bool {
-		return pat.Expr("_now >= "+E).Match(info, cond, nb) != nil
-	})
-	okBranches := false
-	if inner != nil {
-		past := yields(inner.Body, "1", nb)
-		var rest ast.Node = inner.Else
-		if rest == nil {
-			// early-return form: the remaining statements after the if
-			rest = root
-		}
-		future := yields(rest, E+" - _now", nb)
-		okBranches = past && future
-	} else if alt := findIf(info, root, func(cond ast.Expr) bool { return pat.Expr("_now < "+E).Match(info, cond, nb) != nil }); alt != nil {
-		future := yields(alt.Body, E+" - _now", nb)
-		var rest ast.Node = alt.Else
-		if rest == nil {
-			rest = root
-		}
-		okBranches = future && yields(rest, "1", nb)
-	}
-	c.Check(rule, key, root.Pos(), okNow && okBranches, "ttlms = ExpireAt - (now + shift) in milliseconds, floored at 1 when already past (0 would mean 'no expiry' to RESTORE)")
 }
 
 func findIf(info *types.Info, root ast.Node, match func(cond ast.Expr) bool) *ast.IfStmt {
@@ -966,36 +815,56 @@ func r6(c *core.Ctx, fns ...*core.Fn) {
 // R7
 
 func r7(c *core.Ctx) {
-	fn := c.Func(pkg, "", "CompareVersion")
-	if fn == nil {
+	root := c.Func(pkg, "", "CompareVersion")
+	if root == nil {
 		return
 	}
-	info := fn.Pkg.TypesInfo
-	g := cfgq.Of(c.Program, fn)
-	n := 0
-	for _, p := range g.Points(func(ast.Node) bool { return true }) {
-		core.Inspect(p.Node(), func(m ast.Node) bool {
-			ix, ok := m.(*ast.IndexExpr)
-			if !ok {
-				return true
+	// CompareVersion and the same-package helpers it calls (two levels)
+	fns := []*core.Fn{root}
+	seen := map[*types.Func]bool{root.Obj: true}
+	for i := 0; i < len(fns) && i < 8; i++ {
+		fi := fns[i].Pkg.TypesInfo
+		core.InspectAll(fns[i].Decl.Body, func(m ast.Node) bool {
+			if call, ok := m.(*ast.CallExpr); ok {
+				if f := core.CalleeFunc(fi, call); f != nil && f.Pkg() != nil && f.Pkg().Path() == root.Pkg.PkgPath && !seen[f] {
+					seen[f] = true
+					if h := c.FnOf(f); h != nil && h.Decl.Body != nil {
+						fns = append(fns, h)
+					}
+				}
 			}
-			if _, isSlice := info.TypeOf(ix.X).Underlying().(*types.Slice); !isSlice {
-				return true
-			}
-			if _, isConst := core.IntConst(info, ix.Index); isConst {
-				return true
-			}
-			n++
-			b := pat.Binds{"_s": ix.X, "_i": ix.Index}
-			ok2, w := g.OnlyViaFact(p, func(f cfgq.Fact) bool {
-				return pat.Expr("_i < len(_s)").Match(info, f.Expr, b) != nil && f.Val || pat.Expr("_i >= len(_s)").Match(info, f.Expr, b) != nil && !f.Val
-			})
-			c.Check("R7.index", fmt.Sprintf("CompareVersion/%s", c.Src(ix.X)), ix.Pos(), ok2,
-				fmt.Sprintf("`%s` must be reachable only when %s < len(%s): a version string with fewer components than the comparison level (target.version = \"5\") indexes out of range and aborts the restore", c.Src(ix), c.Src(ix.Index), c.Src(ix.X)), w...)
 			return true
 		})
 	}
-	if n < 2 {
-		c.Undecidedf("instances", "R7.index", fn.Decl.Pos(), "only %d indexed accesses found in CompareVersion, 2 confirmed", n)
+	n := 0
+	for _, fn := range fns {
+		info := fn.Pkg.TypesInfo
+		g := cfgq.Of(c.Program, fn)
+		for _, p := range g.Points(func(ast.Node) bool { return true }) {
+			core.Inspect(p.Node(), func(m ast.Node) bool {
+				ix, ok := m.(*ast.IndexExpr)
+				if !ok {
+					return true
+				}
+				if _, isSlice := info.TypeOf(ix.X).Underlying().(*types.Slice); !isSlice {
+					return true
+				}
+				if _, isConst := core.IntConst(info, ix.Index); isConst {
+					return true
+				}
+				n++
+				b := pat.Binds{"_s": ix.X, "_i": ix.Index}
+				ok2, w := g.OnlyViaFact(p, func(f cfgq.Fact) bool {
+					pos := flow.Positive(f)
+					return pat.Expr("_i < len(_s)").Match(info, pos, b) != nil || pat.Expr("_i+1 <= len(_s)").Match(info, pos, b) != nil || pat.Expr("_i <= len(_s)-1").Match(info, pos, b) != nil
+				})
+				c.Check("R7.index", fmt.Sprintf("%s/%s", fn.Decl.Name.Name, c.Src(ix.X)), ix.Pos(), ok2,
+					fmt.Sprintf("`%s` must be reachable only when %s < len(%s): a version string with fewer components than the comparison level (target.version = \"5\") indexes out of range and aborts the restore", c.Src(ix), c.Src(ix.Index), c.Src(ix.X)), w...)
+				return true
+			})
+		}
+	}
+	if n < 1 {
+		c.Undecidedf("instances", "R7.index", root.Decl.Pos(), "no indexed access to the version components found in CompareVersion or its helpers")
 	}
 }
